@@ -23,6 +23,32 @@ let table = List.map (fun (name, p) -> (ocaml_string name, p)) all_rec_progs
 let prog n = match List.assoc_opt n table with Some p -> p | None -> None
 let family fam = ((prog ("raid_rec1_" ^ fam), prog ("raid_rec2_" ^ fam)), prog ("raid_recX_" ^ fam))
 
+(* diagnostics of a rejected decoder *)
+let rec int_of_nat = function O -> 0 | S n -> 1 + int_of_nat n
+let s_atom = function AtP (b, off) -> Printf.sprintf "p[%d][i+%d]" (int_of_nat b) (int_of_nat off)
+                    | AtPa (b, off) -> Printf.sprintf "pa[%d][i+%d]" (int_of_nat b) (int_of_nat off)
+let s_xs x = if x = [] then "0" else "(" ^ String.concat "^" (List.map s_atom x) ^ ")"
+let s_term (c, x) = match c with
+  | ROne -> s_xs x
+  | RLo vi -> Printf.sprintf "mul[V[%d]].lo%s" (int_of_nat vi) (s_xs x)
+  | RHi vi -> Printf.sprintf "mul[V[%d]].hi%s" (int_of_nat vi) (s_xs x)
+let s_rav = function
+  | RJunk -> "UNKNOWN" | RCst c -> Printf.sprintf "const 0x%02x" (int_of_n c)
+  | RTab (vi, lh) -> Printf.sprintf "table mul[V[%d]][%d]" (int_of_nat vi) (int_of_nat lh)
+  | RLin n -> if n = [] then "0" else String.concat " ^ " (List.map s_term n)
+  | RLo4 x -> s_xs x ^ "&15" | RHi4 x -> s_xs x ^ ">>4" | RSrl4 x -> "srlw(" ^ s_xs x ^ ",4)"
+let why name =
+  match prog name with
+  | None -> "not translated"
+  | Some p ->
+    let ns = (match p.r_n with Some n -> [n] | None -> List.map nat_of_int [1; 2; 3; 4; 5; 6]) in
+    (match List.filter (fun n -> not (rcheck_n p n)) ns with
+     | [] -> "accepted"
+     | n :: _ ->
+       let (pro, fin) = ranalyse p n in
+       Printf.sprintf "N=%d prologue_stores=%d stores=[%s]" (int_of_nat n) (List.length (snd pro))
+         (String.concat "; " (List.rev_map (fun ((b, off), v) -> Printf.sprintf "pa[%d][i+%d]<-%s" (int_of_nat b) (int_of_nat off) (s_rav v)) (snd fin))))
+
 let () =
   try
     while true do
@@ -31,6 +57,10 @@ let () =
       (match toks.(0) with
        | "list" ->
          print_endline (String.concat " " (List.map (fun (n, p) -> n ^ (match p with Some _ -> "=translated" | None -> "=fallback")) table))
+       | "check" ->
+         print_endline (String.concat " " (List.map (fun (n, p) ->
+           n ^ (match p with None -> "=fallback" | Some _ -> if rchecker_opt p then "=proved" else "=REJECTED")) table))
+       | "why" -> print_endline (why toks.(1))
        | "rec" ->
          let fam = toks.(1) in
          if fam <> "ssse3" && fam <> "avx2" then print_endline "skip" else begin
